@@ -20,12 +20,15 @@ TIMES = (0.1, -0.1, 1.0, -1.0, 7.0, -7.0)
 
 
 def configs(tier, seed):
-    cfgs = zoo.system_configs(seed, tier, families=("euclidean", "gaussian", "constrained",
-                                                    "gaussian_constrained"),
-                              all_convs=(tier == "thorough"), derived_metrics=True)
-    # h2 flows do not depend on the target: one target is enough in quick
+    fams = ("euclidean", "gaussian", "constrained", "gaussian_constrained")
     if tier == "quick":
-        cfgs = [c for c in cfgs if c["target"] == "quartic"]
+        cfgs = zoo.system_configs(seed, tier, families=fams, all_convs=False,
+                                  derived_metrics=True)
+        # h2 flows do not depend on the target: one target is enough in quick
+        return [c for c in cfgs if c["target"] == "quartic"]
+    cfgs = []
+    for sd in (seed, seed + 3, seed + 5):  # three parameter variants of every lattice
+        cfgs += zoo.system_configs(sd, tier, families=fams, all_convs=True, derived_metrics=True)
     return cfgs
 
 
